@@ -88,6 +88,13 @@ fn script(req: &Value) -> Value {
                 }
                 Err(e) => out.push(json!({"err": format!("{e:?}")})),
             },
+            "simplify" => match get(&regs, &a[2]).simplify(&quil_rs::instruction::DefaultHandler) {
+                Ok(p) => {
+                    regs.insert(a[1].as_str().unwrap().to_string(), p);
+                    out.push(json!("Ok"));
+                }
+                Err(e) => out.push(json!({"err": format!("{e:?}")})),
+            },
             "expand_defgate_sequences" => match get(&regs, &a[2]).expand_defgate_sequences(|_| true) {
                 Ok(p) => {
                     regs.insert(a[1].as_str().unwrap().to_string(), p);
